@@ -96,10 +96,40 @@ def _install_lexer():
     lx.BasicLexer.next_token = next_token
 
 
+_dg = {'calls': []}
+
+
+def _install_digraph():
+    """every call of lalr_analysis.digraph (arguments snapshotted before the call: it mutates G in place)"""
+    from lark.parsers import lalr_analysis as LA
+    orig = LA.digraph
+
+    def wrapped(X, R, G):
+        try:
+            Xl = list(X)
+            if 0 < len(Xl) <= 80 and len(_dg['calls']) < 1500:
+                idx = {x: i + 1 for i, x in enumerate(Xl)}
+                vals = {}
+
+                def vid(v):
+                    return vals.setdefault(v, len(vals) + 1)
+                Rj = [[idx[y] for y in R[x] if y in idx] for x in Xl]
+                Gj = [sorted(vid(v) for v in G[x]) for x in Xl]
+                F = orig(Xl, R, G)
+                Fj = [sorted(vid(v) for v in F[x]) for x in Xl]
+                _dg['calls'].append({'n': len(Xl), 'R': Rj, 'G': Gj, 'F': Fj})
+                return F
+        except Exception:
+            pass
+        return orig(X, R, G)
+    LA.digraph = wrapped
+
+
 def pytest_configure(config):
     if OUT:
         _install()
         _install_lexer()
+        _install_digraph()
 
 
 def pytest_unconfigure(config):
@@ -109,6 +139,9 @@ def pytest_unconfigure(config):
 
     class P:
         pass
+    with open(os.path.join(OUT, '%d.digraph.ndjson' % os.getpid()), 'w') as f:
+        for c in _dg['calls']:
+            f.write(json.dumps(c) + '\n')
     with open(os.path.join(OUT, '%d.tokens.ndjson' % os.getpid()), 'w') as f:
         for rec in _lex['texts'].values():
             text = rec['text']
